@@ -14,7 +14,7 @@ CHECKS = {
          "Full product of section order (6 permutations, root behind a gap) x gap x tree shape (root only, root->leaves, depth 3, mixed) x run length x offset pattern (contiguous, back-references, descending, overlapping) x entry count x metadata kind x 4 compressions (32k archives quick) through from_bytes, from_reader, from_async_reader, util::read_directories(_async) and Directory::find_entry_for_tile_id on every directory; the three upstream fixtures (1.4M tiles) against the spec reader.",
          "trusts the harness's encoder (spec/archive.rs); the fixtures tie encoder and reader to upstream output", "4/C03"),
  "C04": ("model_checking", "explicit-state breadth-first search to fix-point over edit histories of the real PMTiles object (states merged on a canonical key read through the verif hook), BTreeMap reference model checked in every state",
-         "All histories over add/remove/save+reopen(sync|async) on adjacent ids with colliding contents from 10 (quick) / 14 (thorough) initial states incl. three foreign archives: the reachable state space is finite and explored completely (8.4k states / 92k transitions quick; ~330k states thorough); every transition is executed on the real object twice (with and without interleaved lookups) and lookups by id and by coordinates, listing and count are compared with the map in every state.",
+         "All histories over add/remove/save+reopen(sync|async) on adjacent ids with colliding contents from 14 (quick) / 18 (thorough) initial states incl. three foreign archives and four range-filtered opens: the reachable state space is finite and explored completely (8.5k states / 94k transitions quick; ~330k states thorough), twice in different exploration orders whose state sets must coincide; initial states include range-filtered opens; every transition is executed on the real object twice (with and without interleaved lookups) and lookups by id and by coordinates, listing and count are compared with the map in every state.",
          "state merging argument in DESIGN.md 4/C04; hook is read-only", "4/C04"),
  "C10": ("model_checking", "bounded-exhaustive archive enumeration in three tile provenances judged by the independent reader, plus an invariant on the hook snapshot in every state of the explicit-state history search",
          "Archive clauses on every small map x 4 codecs x {memory, reader-backed, mixed} x {sync,async} (58k archives quick) and on foreign archives storing a content twice: data length = sum of distinct contents, equal content <=> equal offset, no mergeable neighbours, entry count = number of maximal runs. Retention clause (exactly one stored copy per referenced content, exact reference sets, no orphan) as an invariant in every state of the C04 BFS.",
@@ -26,14 +26,14 @@ CHECKS = {
          "All small maps + metadata/settings alphabets (written by both writers, read by both readers, full and four range-filtered opens, byte identity for Compression::None), the foreign product, all directory lists of <= 2 entries incl. zero-length rejections, the write_directories crossing sweep, 45k header images incl. every enum/version code and truncation: equal values or errors on both sides.",
          "streams are ready-immediately in-memory cursors (fragmentation/Pending is C13)", "4/C12"),
  "C13": ("model_checking", "stateless deviation-bounded exploration (CHESS-style iterative bounding) of every stream call's answer (short transfer sizes, Pending) on the real sync and async code paths; all compositions for tiny objects; uniform schedules",
-         "152 scenarios (header/directory/archive read+write, lookups, backing-reader re-write, directory utilities, codec adapters; 4 codecs; sync+async; leaf-spill writers): all executions with <= 3 (quick) / 4 (thorough) deviations where the count fits the budget (>= 1 for the 7.7k-call spill writers), every transfer size at every call for directories of <= 17/21 bytes, and uniform max-c-bytes / always-Pending schedules; result, stream image and final position must equal the unfragmented run. Replay divergence is a machinery error (exit 2).",
+         "~250 scenarios (header/directory/archive read+write, full and range-filtered opens, lookups, multi-call sessions, backing-reader re-write, directory utilities, codec adapters, padded sections, 70 KB tiles / 9 KB metadata; 4 codecs; sync+async; leaf-spill writers): all executions with <= b deviations, b the largest value <= 3 (quick) / 4 (thorough) whose execution count fits a per-scenario budget (>= 1 even for the 7.7k-call spill writers); every transfer size at every call for directories of <= 17/21 bytes; uniform max-c-bytes / always-Pending schedules. 1.7 M executions and 2*10^8 stream calls in the quick tier. Result, per-call results of sessions, stream image and final position must equal the unfragmented run. Vectored writes are one call offering the concatenation. Replay divergence is a machinery error (exit 2).",
          "controlled stream semantics in DESIGN.md section 8; stays writable after poll_close", "4/C13"),
  "C14": ("exploration", "bounded-exhaustive enumeration of byte strings and of ALL write-split compositions (inputs <= 12 bytes) through the real codec helpers, decoded by the upstream crates and an unrelated inflate",
          "Empty, all 256 single bytes, all strings over {00,FF,41} up to length 6, three 12-byte strings with every composition of write sizes (275k streamed encodes), zeros/xorshift at 4095..2^20+1 (5 MiB thorough) and data.json with fixed chunk sizes; x 4 codecs x one-shot/streaming x sync/async: round trip, strict decode by flate2/brotli/zstd called directly, gzip also by the harness's own inflate+CRC32+ISIZE; Unknown is an error from all six functions.",
          "harness/src/spec/inflate.rs is the unrelated gzip implementation", "4/C14"),
  "C15": ("fault_enumeration", "exhaustive fail-stop fault enumeration: for each scenario's fault-free log of N stream calls, every k<N is executed with call k and all later calls failing",
-         "Every fault point of 152 single-call scenarios (open, open+one lookup, archive/directory/header write, re-write over a failing backing reader, read_/write_directories; 4 codecs; sync+async; leaf-spill writers) - ~10k faulty executions: the call must return Err, or Ok only with the complete image/value; never panic.",
-         "fail-stop faults only", "4/C15"),
+         "Every fault point of ~190 scenarios (open, range-filtered open, open+one lookup, sessions of open + every id twice + re-write judged call by call, archive/directory/header write incl. 5000-entry directories and 70 KB tiles, re-write over a failing backing reader, read_/write_directories; 4 codecs; sync+async; leaf-spill writers) x 4 error kinds (Other, UnexpectedEof, BrokenPipe, InvalidData) - 80k faulty executions quick: the call must return Err (a success after a failed operation is a violation even if the data happens to be complete); never panic.",
+         "fail-stop faults only (transient failures are explored in C20's sessions)", "4/C15"),
  "C16": ("model_checking", "stateless enumeration of ALL edit histories up to a length bound WITHOUT state merging, grouped by final logical content; all insertion-order permutations; three provenances; separate OS processes; rewrite identity over the C01 corpus",
          "All 16k (quick) / 177k (thorough) operation sequences of length <= 4/5 over add/remove/save+reopen from fresh sync and async objects: every group of histories with equal final content must serialise to one byte image; all 720/5040 insertion orders; every small map written from memory, reopened and mixed; 64 archives written in 4/16 separate processes (fresh hash seeds); to_writer(from_bytes(b)) == b for the whole C01 corpus incl. coordinate and float-metadata alphabets; foreign archives idempotent after one rewrite.",
          "sync and async writers use different encoders and are never compared with each other", "4/C16"),
@@ -44,7 +44,7 @@ CHECKS = {
          "P in {0,1,10,126,127,128,4096,16384,70000} x {empty, pattern of P bytes, pattern of P+100000 bytes} x {0 tiles, 3 tiles, leaf spill} x codecs x {sync,async}: prefix untouched, [P,P+L) byte-identical to the P=0 archive, final position P+L, image[P..] opens to the logical archive.",
          "in-memory seekable stream", "4/C18"),
  "C20": ("exploration", "bounded-exhaustive enumeration of archive layouts opened over a recording stream; the set of byte ranges returned to the library is the observation",
-         "7k archives quick (library-written incl. leaf spill; the foreign product with tile data placed directly behind every directory/metadata section and sentinel-filled gaps) x full and three range-filtered opens x sync/async, then a lookup of every addressed id and absent neighbours: open touches only header/metadata/root/leaf sections and never tile data; each lookup's returned ranges unite to exactly the tile's range; absent ids read nothing.",
+         "9k archives quick (library-written incl. leaf spill and 9/20/70 KB metadata; the foreign product with tile data placed directly behind every directory/metadata section, sentinel-filled gaps, level-order leaves) x full and three range-filtered opens x sync/async, then a lookup of every addressed id and absent neighbours: open touches only header/metadata/root/leaf sections and never tile data; each lookup's returned ranges unite to exactly the tile's range; absent ids read nothing. Plus sessions with one transient stream failure at every call index and async sessions with a lookup future dropped at Pending: later lookups return the tile and read inside its range, a later save equals the save without failure.",
          "only which bytes are returned is constrained, not how many calls are made", "4/C20"),
  "C19": ("model_checking", "rejected-operation invariant checked in every state of the explicit-state history search; exhaustive position enumeration for the directory/metadata/compression clauses",
          "add_tile(id, empty) in three argument forms for every id in every reachable state of the C04 BFS (2.2M refused adds quick): Err and snapshot + observations unchanged; zero-length entry at every index of directories of size 1..4 (+1000-entry lists) x 4 codecs x sync/async for parser and serialiser, archives carrying one in root or leaf; every non-object JSON kind as metadata; Unknown compression through writer, opener, directory codec and the six helpers.",
